@@ -123,7 +123,9 @@ def random_items(seed, n):
 
 
 def run(ctx):
-    ctx.mc("text", MODULE, "MC_HttpUtil.cfg", timeout=ctx.pick(900, 1500), overrides={"MaxFree": ctx.pick(1, 2), "Level": ctx.pick(1, 2)},
+    ctx.mc("text", MODULE, "MC_HttpUtil.cfg", timeout=ctx.pick(900, 1500), overrides=ctx.pick({"MaxFree": 1, "Level": 1, "Kinds": '{"params", "date", "reesc", "hostport", "urlconcat"}'},
+                          {"MaxFree": 2, "Level": 2}),   # quick: coverage run on the small kinds; the gen run below checks
+                                                         # the same invariants on every kind
            required_actions=["Extend"])
     mf = ctx.pick(3, 4)
     states = ctx.gen_states("text", MODULE, "Gen_HttpUtil.cfg", timeout=ctx.pick(900, 1500), overrides={"MaxFree": mf, "Level": ctx.pick(1, 2)})
